@@ -20,6 +20,7 @@ EXTENDS Integers, Sequences, FiniteSets, TLC, PvData
 \*   [k |-> "n2p", x |-> instant, p |-> fields]     unix_nano_to_pv_string(x) returned the string with fields p
 \*   [k |-> "p2n", p |-> fields, x |-> instant]     convert_timestamp_to_unix_nano(string of p) returned x
 \*   [k |-> "ord", x |-> instant, y |-> instant, p |-> fields, q |-> fields]   x < y were converted to p and q
+\*   [k |-> "ordw", ...]   the same for instants with a sub-microsecond part: the order may collapse, never reverse
 
 VARIABLES i, inst
 vars == <<i, inst>>
@@ -50,18 +51,26 @@ DaysIn(Y, M) == CASE M \in {1, 3, 5, 7, 8, 10, 12} -> 31 [] M \in {4, 6, 9, 11} 
                   [] OTHER -> IF IsLeap(Y) THEN 29 ELSE 28
 
 (* ---------------- the two conversions ---------------- *)
-\* the microsecond value is preserved (truncation of the sub-microsecond part is not demanded by the property:
-\* it quantifies over microsecond-precision instants, ns = 0)
+\* the microsecond value is preserved.  For an instant with a sub-microsecond part (OTel times are nanoseconds) the
+\* statement leaves open whether that part is truncated or rounded; NsToPv is the truncation, NsToPvUp the next
+\* microsecond, and an observed conversion of such an instant must be one of the two (see ObsOk)
 NsToPv(x) == LET c == CivilFromDays(x.d)
              IN [Y |-> c.Y, M |-> c.M, D |-> c.D, h |-> x.s \div 3600, m |-> (x.s % 3600) \div 60, sec |-> x.s % 60,
                  us |-> x.us]
 PvToNs(p) == [d |-> DaysFromCivil(p.Y, p.M, p.D), s |-> p.h * 3600 + p.m * 60 + p.sec, us |-> p.us, ns |-> 0]
+
+\* the next microsecond, with carry into the second and the day
+AddUs(x) == IF x.us < 999999 THEN [x EXCEPT !.us = x.us + 1, !.ns = 0]
+            ELSE IF x.s < 86399 THEN [x EXCEPT !.us = 0, !.s = x.s + 1, !.ns = 0]
+            ELSE [d |-> x.d + 1, s |-> 0, us |-> 0, ns |-> 0]
+NsToPvUp(x) == NsToPv(AddUs(x))
 
 ValidPv(p) == /\ p.M \in 1..12 /\ p.D \in 1..DaysIn(p.Y, p.M) /\ p.h \in 0..23 /\ p.m \in 0..59 /\ p.sec \in 0..59
               /\ p.us \in 0..999999
 InstLess(x, y) == \/ x.d < y.d
                   \/ (x.d = y.d /\ x.s < y.s)
                   \/ (x.d = y.d /\ x.s = y.s /\ x.us < y.us)
+InstLessNs(x, y) == InstLess(x, y) \/ (x.d = y.d /\ x.s = y.s /\ x.us = y.us /\ x.ns < y.ns)
 \* order of the strings = lexicographic order of the fixed-width fields
 PvLess(p, q) == LET a == <<p.Y, p.M, p.D, p.h, p.m, p.sec, p.us>>
                     b == <<q.Y, q.M, q.D, q.h, q.m, q.sec, q.us>>
@@ -72,6 +81,7 @@ GridDays == {0, 1, 30, 31, 58, 59, 89, 364, 365, 366, 424, 425, 730, 789, 790, 1
              10956, 10957, 11015, 11016, 11017, 11322, 24855, 24856, 47481, 47482, 47540, 47541, 47542, 47846, 47847}
 GridSecs == {0, 1, 59, 60, 3599, 3600, 43199, 43200, 86399}
 GridUs == {0, 1, 499999, 500000, 999999}
+GridNs == {0, 1, 499, 500, 501, 999}
 Grid == {[d |-> d, s |-> s, us |-> u, ns |-> 0] : d \in GridDays, s \in GridSecs, u \in GridUs}
 
 SelfMode == Obs = <<>>
@@ -85,6 +95,12 @@ RoundTripNs == SelfMode => (ValidPv(NsToPv(inst)) /\ PvToNs(NsToPv(inst)) = inst
 RoundTripPv == SelfMode => NsToPv(PvToNs(NsToPv(inst))) = NsToPv(inst)
 Monotone == SelfMode => \A y \in Grid : InstLess(inst, y) => PvLess(NsToPv(inst), NsToPv(y))
 \* the calendar agrees with the day count: consecutive days are consecutive dates
+\* rounding up carries correctly: the next microsecond is later than the instant and denotes exactly instant + 1 us
+CarryOk == SelfMode => \A n \in GridNs :
+              LET x == [inst EXCEPT !.ns = n]
+              IN /\ ValidPv(NsToPvUp(x)) /\ InstLessNs(x, PvToNs(NsToPvUp(x)))
+                 /\ (PvLess(NsToPv(x), NsToPvUp(x)))
+                 /\ PvToNs(NsToPvUp(x)) = AddUs(x)
 NextDay == SelfMode =>
              LET a == CivilFromDays(inst.d)
                  b == CivilFromDays(inst.d + 1)
@@ -94,9 +110,10 @@ NextDay == SelfMode =>
 
 (* ---------------- observed calls of the real converters (B2) ---------------- *)
 ObsOk == LET o == Obs[i] IN
-           CASE o.k = "n2p" -> o.x.ns = 0 => o.p = NsToPv(o.x)
+           CASE o.k = "n2p" -> IF o.x.ns = 0 THEN o.p = NsToPv(o.x) ELSE o.p \in {NsToPv(o.x), NsToPvUp(o.x)}
              [] o.k = "p2n" -> ValidPv(o.p) => o.x = PvToNs(o.p)
              [] o.k = "ord" -> InstLess(o.x, o.y) => PvLess(o.p, o.q)
+             [] o.k = "ordw" -> InstLessNs(o.x, o.y) => ~PvLess(o.q, o.p)      \* nanosecond instants: never reversed
              [] OTHER -> FALSE
 Report == SelfMode \/ (IF ObsOk THEN PrintT(<<"OK", i>>) ELSE PrintT(<<"BAD", i>>))
 =============================================================================
